@@ -198,6 +198,10 @@ func checkInitial(c InitialCase, u *vf.Unit) *vf.Verdict {
 		if err := primeLongOpener(opener, sendKeys, c.Largest); err != nil {
 			return vf.Bad("C05/initial/repo-cannot-open-ref-packet", "priming packet (pn %d) sealed by refcrypto rejected: %v", c.Largest, err)
 		}
+		// a forged packet with a far-away packet number must not move the receiver's decoding window
+		if _, err := opener.Open(nil, expand(c.Seed+8, 40), protocol.PacketNumber(c.PN+(1<<40))&protocol.PacketNumber(refcrypto.MaxPN), []byte{0xc0, 9}); err == nil {
+			return vf.Bad("C05/tamper/accepted-modified-packet", "Initial opener accepted 40 random bytes")
+		}
 		unp := quic.VerifNewPacketUnpacker(&fakeCS{initial: opener}, 0)
 		hdr, data, rest, err := wire.ParsePacket(append([]byte{}, p...))
 		if err != nil {
